@@ -4,7 +4,10 @@ that the offending input is attributed exactly."""
 import driver
 
 
-def run_ops(exe, ops, batch=400, cpu=8, tagprefix="b", max_bad=6, env=None, max_bad_batches=3):
+MEMCHECK = driver.MEMCHECK
+
+
+def run_ops(exe, ops, batch=400, cpu=8, tagprefix="b", max_bad=6, env=None, max_bad_batches=3, wrapper=()):
     """ops: list of command lines (str).  Returns list of results aligned with ops:
     ('ok', line) | ('crash', key, report) | ('timeout',) | ('watchdog',) | ('missing',)"""
     results = [None] * len(ops)
@@ -20,7 +23,7 @@ def run_ops(exe, ops, batch=400, cpu=8, tagprefix="b", max_bad=6, env=None, max_
     for g in range(0, len(cases), 8):
         if failing >= max_bad_batches:
             break   # enough failing batches: the rest is reported as skipped
-        part = driver.run_cases(exe, cases[g:g + 8], retry_timeouts=False, env=env)
+        part = driver.run_cases(exe, cases[g:g + 8], retry_timeouts=False, env=env, wrapper=wrapper)
         failing += sum(1 for r in part.values() if r.status != "ok")
         res.update(part)
     redo = []
@@ -44,8 +47,8 @@ def run_ops(exe, ops, batch=400, cpu=8, tagprefix="b", max_bad=6, env=None, max_
             for i in group:
                 results[i] = ("skipped",)
             continue
-        singles = [("s%d" % i, "CASE s%d %g\n%s\nEND\n" % (i, 2.0, ops[i])) for i in group]
-        res = driver.run_cases(exe, singles, retry_timeouts=True, env=env)
+        singles = [("s%d" % i, "CASE s%d %g\n%s\nEND\n" % (i, 80.0 if wrapper else 2.0, ops[i])) for i in group]
+        res = driver.run_cases(exe, singles, retry_timeouts=True, env=env, wrapper=wrapper)
         for i in group:
             r = res.get("s%d" % i)
             if r is None or r.status != "ok":
@@ -60,6 +63,8 @@ def run_ops(exe, ops, batch=400, cpu=8, tagprefix="b", max_bad=6, env=None, max_
                 results[i] = ("watchdog",)
             elif r.status == "crash":
                 results[i] = ("crash", r.key, r.report)
+            elif r.status == "skipped":
+                results[i] = ("skipped",)
             else:
                 results[i] = ("missing",)
     return results
